@@ -77,10 +77,93 @@ type Program struct {
 func (p *Program) WriteTo(cw *CodeWriter) {
 	for i, stmt := range p.Statements {
 		if i > 0 {
+			cw.protectStatementBoundary(p.Statements[i-1], stmt)
 			cw.WriteNewline()
 		}
 		stmt.WriteTo(cw)
 	}
+}
+
+// protectStatementBoundary keeps the semicolon between two statements when semicolons
+// are being omitted but the next statement starts with a token that would continue the
+// previous one on the following line: ( [ ` + - /
+func (cw *CodeWriter) protectStatementBoundary(prev, next Statement) {
+	if !cw.PrettyPrint || cw.WriteSemicolons {
+		return
+	}
+	if endsWithoutTerminator(prev) && startsWithContinuation(next) {
+		cw.WriteRune(';')
+	}
+}
+
+// endsWithoutTerminator reports whether the text of stmt ends where an optional
+// semicolon is omitted (and not with a closing brace).
+func endsWithoutTerminator(stmt Statement) bool {
+	switch s := stmt.(type) {
+	case *LetStatement, *ReturnStatement:
+		return true
+	case *ExpressionStatement:
+		return s.Expression != nil
+	case *IfStatement:
+		if s.ElseBranch != nil {
+			return endsWithoutTerminator(s.ElseBranch)
+		}
+		return endsWithoutTerminator(s.ThenBranch)
+	case *WhileStatement:
+		return endsWithoutTerminator(s.Body)
+	case *ForStatement:
+		return endsWithoutTerminator(s.Body)
+	}
+	return false
+}
+
+// startsWithContinuation reports whether stmt is an expression statement whose first
+// character could be read as the continuation of an expression on the previous line.
+func startsWithContinuation(stmt Statement) bool {
+	es, ok := stmt.(*ExpressionStatement)
+	if !ok || es.Expression == nil {
+		return false
+	}
+	switch firstByteOfExpression(es.Expression) {
+	case '(', '[', '`', '+', '-', '/':
+		return true
+	}
+	return false
+}
+
+// firstByteOfExpression returns the first character written for expr (0 if unknown).
+func firstByteOfExpression(expr Expression) byte {
+	switch e := expr.(type) {
+	case *GroupedExpression, *ObjectLiteral, *FunctionExpression:
+		return '(' // object and function literals are parenthesised at statement start
+	case *ArrayLiteral:
+		return '['
+	case *MultiStringLiteral:
+		return '`'
+	case *UnaryExpression:
+		if e.Operator != "" {
+			return e.Operator[0]
+		}
+	case *BinaryExpression:
+		if e.Left.Precedence() < e.Precedence() {
+			return '('
+		}
+		return firstByteOfExpression(e.Left)
+	case *PostfixExpression:
+		if e.Left.Precedence() < PrecedencePostfix {
+			return '('
+		}
+		return firstByteOfExpression(e.Left)
+	case *CallExpression:
+		return firstByteOfExpression(e.Function)
+	case *MemberExpression:
+		return firstByteOfExpression(e.Object)
+	case *AssignmentExpression:
+		return firstByteOfExpression(e.Left)
+	case *CompoundAssignmentExpression:
+		return firstByteOfExpression(e.Left)
+	}
+	return 0
 }
 
 // Statements
@@ -204,6 +287,7 @@ func (bs *BlockStatement) WriteTo(cw *CodeWriter) {
 	cw.IncreaseIndent()
 	for i, stmt := range bs.Statements {
 		if i > 0 {
+			cw.protectStatementBoundary(bs.Statements[i-1], stmt)
 			cw.WriteNewline()
 		}
 		cw.WriteIndent()
@@ -234,6 +318,9 @@ func (ifs *IfStatement) WriteTo(cw *CodeWriter) {
 	cw.WriteSpace()
 	ifs.ThenBranch.WriteTo(cw)
 	if ifs.ElseBranch != nil {
+		if cw.PrettyPrint && !cw.WriteSemicolons && endsWithoutTerminator(ifs.ThenBranch) {
+			cw.WriteRune(';') // "if (a) b else c" is not valid without it
+		}
 		cw.WriteString(" else ")
 		ifs.ElseBranch.WriteTo(cw)
 	}
